@@ -406,3 +406,117 @@ Theorem c18_tool_fuel_irrelevant :
       d' s log q max_iterations auto = (s', log', t, f).
 Proof. exact tool_fuel_irrelevant_proof. Qed.
 Print Assumptions c18_tool_fuel_irrelevant.
+
+(* ---- budgets ASSIGNED on a live object -------------------------------------- *)
+
+(* max_retries / confidence_decay are public fields of a mutable dataclass: they can
+   be assigned on a ChaperoneLoop that is already in use.  ops: ANY history of
+   assignments and heal() calls, from ANY construction-time configuration c0.
+
+   The call that follows the operations `pre` runs under the configuration those
+   operations leave -- the LAST value assigned to each attribute, whether that
+   lowered or raised it, else the construction-time value -- and it is exactly one
+   heal() of a loop holding these values (against the generator as the earlier
+   calls left it): the object keeps no copy of an earlier budget. *)
+Theorem c18_heal_call_uses_the_budget_configured_when_made :
+  forall (gen : nat -> option ctx -> gen_out) (validate : Z -> vres)
+         (pre post : list hop) (c0 : hcfg) (k0 : nat),
+    let c := fold_left hcfg_apply pre c0 in
+    exists k,
+      nth_error (heal_hist gen validate c0 k0 (pre ++ HHeal :: post)) (count_heals pre)
+      = Some (c, k, heal (fun i ec => gen (k + i) ec) validate (hc_decay c) (hc_retries c)).
+Proof. exact heal_hist_current_config_proof. Qed.
+Print Assumptions c18_heal_call_uses_the_budget_configured_when_made.
+
+(* hence every heal() call of any such history calls the generator at most
+   (max_retries configured when the call is made) + 1 times, feeds each retry the
+   previous attempt's error, and reports a non-valid result tagged with confidence 0
+   only after exactly that many failed attempts *)
+Theorem c18_heal_reconfigured_history_within_budget :
+  forall (gen : nat -> option ctx -> gen_out) (validate : Z -> vres)
+         (ops : list hop) (c0 : hcfg) (k0 : nat) (c : hcfg) (k : nat) (r : heal_result),
+    In (c, k, r) (heal_hist gen validate c0 k0 ops) ->
+    r = heal (fun i ec => gen (k + i) ec) validate (hc_decay c) (hc_retries c) /\
+    length (h_calls r) <= Z.to_nat (hc_retries c + 1) /\
+    ((0 <= hc_retries c)%Z -> (Z.of_nat (length (h_calls r)) <= hc_retries c + 1)%Z) /\
+    ((hc_retries c < 0)%Z -> h_calls r = []) /\
+    (forall i cl, nth_error (h_calls r) i = Some cl ->
+       fst cl = i /\
+       match i with
+       | O => snd cl = None
+       | S j => exists cj o e,
+           nth_error (h_calls r) j = Some cj /\ gen (k + fst cj) (snd cj) = GOut o /\
+           validate o = VInvalid e /\ snd cl = Some (err_id e, o)
+       end) /\
+    match h_outcome r with
+    | ValidFirstTry | Healed => h_tagged r = false /\ h_structure r <> None
+    | Degraded =>
+        h_tagged r = true /\ h_conf r = 0%Q /\ h_structure r = None /\
+        length (h_calls r) = Z.to_nat (hc_retries c + 1)
+    | GenRaised => True
+    end.
+Proof. exact heal_hist_budget_proof. Qed.
+Print Assumptions c18_heal_reconfigured_history_within_budget.
+
+(* the same for a RegenerativeSwarm whose max_regenerations / max_steps_per_worker /
+   entropy_threshold are assigned between supervise() calls; o, e: ANY object and
+   environment state at the start of the history.  The call after `pre` is one
+   supervise() under the configuration `pre` leaves ... *)
+Theorem c18_swarm_call_uses_the_budgets_configured_when_made :
+  forall (Env Hint : Type)
+         (spawn : Env -> nat -> Hint -> Env * bool) (wstepf : Env -> nat -> Env * wstep)
+         (summarize : Env -> nat -> Hint) (memlen : Env -> nat -> nat) (h0 : Hint)
+         (pre post : list sop) (c0 : scfg) (o : sobj) (e : Env),
+    let c := fold_left scfg_apply pre c0 in
+    exists o1 e1 e' o' r ws,
+      supervise_o spawn wstepf summarize memlen h0 (sc_thr c) (sc_regen c) (sc_steps c) o1 e1
+        = (e', o', r, ws) /\
+      nth_error (swarm_obj_hist spawn wstepf summarize memlen h0 c0 (pre ++ SSupervise :: post) o e)
+                (count_sups pre) = Some (c, o1, r, ws, o').
+Proof. exact swarm_hist_current_config_proof. Qed.
+Print Assumptions c18_swarm_call_uses_the_budgets_configured_when_made.
+
+(* ... and every call of any such history spawns at most (max_regenerations configured
+   when the call is made) + 1 workers, runs at most (max_steps_per_worker configured
+   when the call is made) steps on each, succeeds only with a marker-carrying output,
+   and only appends to the object *)
+Theorem c18_swarm_reconfigured_history_within_budget :
+  forall (Env Hint : Type)
+         (spawn : Env -> nat -> Hint -> Env * bool) (wstepf : Env -> nat -> Env * wstep)
+         (summarize : Env -> nat -> Hint) (memlen : Env -> nat -> nat) (h0 : Hint)
+         (ops : list sop) (c0 : scfg) (o : sobj) (e : Env)
+         (c : scfg) (o1 : sobj) (r : swarm_result) (ws : list (wrece Hint)) (o2 : sobj),
+    In (c, o1, r, ws, o2) (swarm_obj_hist spawn wstepf summarize memlen h0 c0 ops o e) ->
+    (s_workers r = map we_rec ws /\
+     length (s_workers r) <= Z.to_nat (sc_regen c + 1) /\
+     (forall i w, nth_error (s_workers r) i = Some w -> w_idx w = so_counter o1 + i) /\
+     (forall w, In w (s_workers r) -> w_steps w <= Z.to_nat (sc_steps c)) /\
+     (s_success r = true ->
+        exists w j out e1, In (mkW w (S j) (WSuccess out)) (s_workers r) /\
+                           snd (wstepf e1 w) = WOut out true /\ s_output r = Some out) /\
+     (s_success r = false -> s_output r = None)) /\
+    so_counter o2 = so_counter o1 + length (s_workers r) /\
+    (exists new, so_ap o2 = so_ap o1 ++ new /\ length new = s_apoptosis r /\
+                 length new <= Z.to_nat (sc_regen c + 1)) /\
+    (exists new, so_rg o2 = so_rg o1 ++ new /\ new = s_regen r /\
+                 length new <= Z.to_nat (sc_regen c)).
+Proof. exact swarm_hist_budget_proof. Qed.
+Print Assumptions c18_swarm_reconfigured_history_within_budget.
+
+(* histories without assignments are the history models above (c18_heal_history_within_budget,
+   c18_swarm_long_lived_object_within_budget): those are instances of these *)
+Theorem c18_history_without_assignments_is_instance :
+  (forall (gen : nat -> option ctx -> gen_out) (validate : Z -> vres) (decay : Q) (mr : Z) (n k0 : nat),
+     map (fun x : hcfg * nat * heal_result => snd x)
+         (heal_hist gen validate (mkHCfg mr decay) k0 (repeat HHeal n))
+     = heal_runs gen validate decay mr n k0) /\
+  (forall (Env Hint : Type)
+          (spawn : Env -> nat -> Hint -> Env * bool) (wstepf : Env -> nat -> Env * wstep)
+          (summarize : Env -> nat -> Hint) (memlen : Env -> nat -> nat) (h0 : Hint)
+          (c : scfg) (n : nat) (o : sobj) (e : Env),
+     map (fun x : scfg * sobj * swarm_result * list (wrece Hint) * sobj =>
+            let '(_, o1, r, ws, o2) := x in (o1, r, ws, o2))
+         (swarm_obj_hist spawn wstepf summarize memlen h0 c (repeat SSupervise n) o e)
+     = swarm_obj_runs spawn wstepf summarize memlen h0 (sc_thr c) (sc_regen c) (sc_steps c) n o e).
+Proof. exact history_without_assignments_proof. Qed.
+Print Assumptions c18_history_without_assignments_is_instance.
